@@ -62,6 +62,11 @@ def dropNodeS (a : AG) (v : Nat) : AG :=
            edge := fun t x y => a.edge t x y && x != v && y != v,
            eattr := fun t x y => if x == v || y == v then .empty else a.eattr t x y }
 
+/-- empty every selected layer -/
+def clearS (a : AG) (t : EType) : AG :=
+  { a with edge := fun t' x y => a.edge t' x y && !sel t t',
+           eattr := fun t' x y => if sel t t' then .empty else a.eattr t' x y }
+
 /-- what a public mutation does to the abstract state; the flag says whether the call returns -/
 def step (a : AG) : GOp → AG × Bool
   | .addNode v at' => (a.addNodeS v at', true)
@@ -81,10 +86,7 @@ def step (a : AG) : GOp → AG × Bool
   | .removeEdges es t =>
     if a.known t then (es.foldl (fun a e => a.dropEdgeS t e.1 e.2) a, true) else (a, false)
   | .clearEdges t =>
-    if a.known t then
-      ({ a with edge := fun t' x y => a.edge t' x y && !sel t t',
-                eattr := fun t' x y => if sel t t' then .empty else a.eattr t' x y }, true)
-    else (a, false)
+    if a.known t then (a.clearS t, true) else (a, false)
   | .addEdgeType t k ns es =>
     if (a.kind t).isSome then (a, false) else
       let a : AG := { a with kind := fun t' => if t' == t then some k else a.kind t' }
